@@ -10,6 +10,8 @@ ENGINES = [
   'kind_free_text': 'explicit-state exploration: enumerates every grammar inside stated bounds, injects it into a compiled instantiation of the real ctpg::parser, compares the LR(1) automaton the real analyzer builds with a reference canonical LR(1) automaton state by state, then runs the real parse() on every string up to a length bound against a reference driver'},
   {'name': 'E-RX', 'path': 'engines/rx_main.cpp', 'serves_properties': ['C03', 'C04', 'C10', 'C17'],
   'kind_free_text': 'explicit-state exploration: enumerates pattern ASTs / term sets / pattern strings inside stated bounds, drives the real regex front-end, dfa_builder and lexer loop, and explores the emitted automaton together with a reference automaton (reachable state pairs x all 256 bytes)'},
+  {'name': 'E-IN/E-CT', 'path': 'progs/', 'serves_properties': ['C13', 'C14', 'C19'],
+  'kind_free_text': 'compiled black-box programs (no guard, no private access) that enumerate a finite configuration x input space completely and check invariants on every execution; built with g++ and clang++'},
 ]
 
 # id -> (technique, level text, level note, design section)
@@ -50,6 +52,14 @@ CHECKS = {
  'C17': ('exhaustive enumeration of all strings up to a length bound as patterns; three-valued reference classifier; checked buffer for reads past the end',
          'Bounded exhaustive model checking over pattern-string space: every string up to length 4 (quick) / 5 and 7 over metacharacters (thorough).',
          'Undeclared-symbol grammars (second half of the statement) are decided by the compile-time program enumerator.', '3 C17'),
+ 'C13': ('exhaustive enumeration of contextual/non-contextual functor assignments x context categories x inputs on compiled parsers',
+         'Bounded exhaustive exploration of a finite configuration space (16 functor assignments x 6 call forms) crossed with every input up to the bound; every functor call is compared with the reduction sequence of the documented driver.',
+         'One grammar shape (list with empty rule and a unit root rule); context types: a move-only struct; black box.', '3 C13'),
+ 'C14': ('exhaustive enumeration of inputs on a compiled parser with an instrumented value type; invariants checked on every execution',
+         'Bounded exhaustive exploration over input space (success, failure and recovery paths) with value-identity tracking; plus a move-only build on both compilers.',
+         'The cvector (cstring_buffer) value stack only admits trivially destructible values, which cannot be instrumented; that path is covered for indices/overflow by C06/C12.', '3 C14'),
+ 'C19': ('complete enumeration of the finite space of helper positions x arities x value categories (static_assert + run-time identity checks)',
+         'The space is finite and is enumerated completely: 581 cases, on g++ and clang++.', 'Arity is capped at 9 (the library defines _e1.._e9).', '3 C19'),
 }
 
 NOT_YET = 'check not built yet (work in progress; see DESIGN.md section 11)'
